@@ -50,6 +50,7 @@ type c10sess struct {
 	lastCm  uint64
 	lastMsg string
 	alive   bool
+	link    bool // an authenticated services link (its lines carry a pseudo-client prefix)
 }
 
 func waitApplied(n *vnode) {
@@ -63,6 +64,11 @@ func TestVerifC10(t *testing.T) {
 	rounds := verifrep.Cases(60)
 	rng := rand.New(rand.NewSource(base))
 	dir := filepath.Join(verifrep.Dir(), "c10node")
+	// a third of the runs start as a JSON-mode node that is upgraded to protobuf at its restart:
+	// the entries posted before the upgrade are converted, the markers come out of converted entries
+	jsonFirst := base%3 == 0
+	verifStoreProto = !jsonFirst
+	defer func() { verifStoreProto = true }()
 	n, err := startNode(dir, true)
 	if err != nil {
 		rep.Broken("cannot start node: " + err.Error())
@@ -95,6 +101,16 @@ func TestVerifC10(t *testing.T) {
 		ss = append(ss, cs)
 	}
 	observer := ss[0]
+	// a services link retries like everybody else (a bridge in front of anope)
+	if ls, _, err := c.createSession(); err == nil {
+		link := &c10sess{s: ls, nick: "ChanServ", alive: true, link: true}
+		post(link, "PASS :services=svcpass")
+		post(link, "SERVER services.example 1 :svc")
+		post(link, "NICK ChanServ 1 1422134861 services localhost.net services.localhost.net 0 :svc")
+		post(link, ":ChanServ JOIN #c")
+		// keep the session that is sacrificed to QUIT last
+		ss = append(ss[:len(ss)-1], link, ss[len(ss)-1])
+	}
 	payload := 0
 	viol := func(key, what string) {
 		rep.Violation("C10", key, what, map[string]interface{}{"seed": base})
@@ -112,7 +128,12 @@ func TestVerifC10(t *testing.T) {
 				o := ss[rng.Intn(len(ss))]
 				if o != s && o.alive {
 					payload++
-					post(o, fmt.Sprintf("PRIVMSG #c :other-%d", payload))
+					if o.link {
+						// a services link always names the pseudo-client that speaks
+						post(o, fmt.Sprintf(":ChanServ PRIVMSG #c :other-%d", payload))
+					} else {
+						post(o, fmt.Sprintf("PRIVMSG #c :other-%d", payload))
+					}
 				}
 			}
 			code, body, _ := cl.post(s.s, s.lastMsg, s.lastCm)
@@ -138,13 +159,17 @@ func TestVerifC10(t *testing.T) {
 		}
 		payload++
 		var line string
-		switch rng.Intn(8) {
-		case 0:
+		switch k := rng.Intn(8); {
+		case s.link && k < 2:
+			line = "PING x"
+		case s.link:
+			line = fmt.Sprintf(":ChanServ PRIVMSG #c :p-%d", payload)
+		case k == 0:
 			line = "TOPIC #c :t" + fmt.Sprint(payload)
-		case 1:
+		case k == 1:
 			line = "NICK " + s.nick + fmt.Sprint(payload%7)
 			s.nick = s.nick + fmt.Sprint(payload%7)
-		case 2:
+		case k == 2:
 			line = "PING x"
 		default:
 			line = fmt.Sprintf("PRIVMSG #c :p-%d", payload)
@@ -211,9 +236,31 @@ func TestVerifC10(t *testing.T) {
 			// snapshot + restart: the marker must survive in the restored state
 			// fold the whole log into the serialized state: the marker must come out of the snapshot
 			*canaryCompactionStart = time.Now().Add(3 * time.Hour).UnixNano()
-			rep.Obs("snapshot.with-everything-folded", 1)
+			if jsonFirst {
+				// nothing is folded: the restarted node rebuilds the markers from log entries
+				*canaryCompactionStart = 0
+			} else {
+				rep.Obs("snapshot.with-everything-folded", 1)
+			}
 			if err := n.raft.Snapshot().Error(); err != nil && !strings.Contains(err.Error(), "nothing new") {
 				rep.Note("snapshot: " + err.Error())
+			}
+			*canaryCompactionStart = 0
+			if jsonFirst && !verifStoreProto {
+				// more traffic after the snapshot: these entries are replayed from the (converted) raft log
+				for _, x := range ss {
+					if x.alive && x != observer {
+						payload++
+						if x.link {
+							post(x, fmt.Sprintf(":ChanServ PRIVMSG #c :p-%d", payload))
+						} else {
+							post(x, fmt.Sprintf("PRIVMSG #c :p-%d", payload))
+						}
+					}
+				}
+				waitApplied(n)
+				verifStoreProto = true
+				rep.Obs("restart.upgrade-json-to-protobuf", 1)
 			}
 			n.stop()
 			n, err = startNode(dir, true)
